@@ -419,7 +419,10 @@ def monitor_trace(t, P):
                     fail('C09', i, 'retain() reported retained %d / removed %d; %d idle objects stayed, %d were handed over'
                          % (e[1], e[2], len(d['idle']), nrem))
             elif k == 12:
-                fail('C13', i, 'metrics anomaly %s on object %d' % (e[2], e[1]))
+                why = {1: 'created changed', 2: 'recycled went back to None', 3: 'recycled moved backwards',
+                       4: 'recycled is before created',
+                       5: 'the recycled stamp of a reused object is older than the start of the get that reused it'}
+                fail('C13', i, 'metrics of object %d: %s' % (e[1], why.get(e[2], 'anomaly %s' % e[2])))
             elif k == 10:
                 # C11 plausibility at every schedule point
                 mx, sz, av, wt = e[1:5]
